@@ -130,7 +130,10 @@ def sampler_cases(ctx, C, samplers, Vector3D, rng, count):
             C.add("sampler", "%s/n=%d" % (kind, npts), expr, {"sampler": kind, "points": pts.tolist(), "received_by_entry": got},
                   spec, "%s: v[i] == f(points[i])" % kind)
             continue
+        fixed = [(0.0, 0.0, 1), (-1.0, 0.0, 3), (0.0, 1.0, 2), (-0.0, 0.0, 2), (-1.0, 1.0, 3), (0.0, 2.0, 5), (0, 0, 2)]
         ranges = [gen_range(rng) for _ in range(dim)]
+        if ci < 2 * len(kinds):          # the first two rounds use ranges with exact zeros as end points / grid points
+            ranges = [fixed[(ci + 3 * d) % len(fixed)] for d in range(dim)]
         if dim == 3:
             while ranges[0][2] * ranges[1][2] * ranges[2][2] > 200:
                 ranges = [gen_range(rng) for _ in range(dim)]
